@@ -133,7 +133,32 @@ func errOperand(r *ssa.Return) ssa.Value {
 	if i < 0 || i >= len(r.Results) {
 		return nil
 	}
-	return r.Results[i]
+	return retOperand(r, i)
+}
+
+// retOperand resolves result operand i of a Return.  In functions with defers
+// results are spilled to cells (`*res = v; rundefers; t = *res; return t`); the
+// operand is then the value last stored to the cell in the returning block.
+func retOperand(r *ssa.Return, i int) ssa.Value {
+	if i >= len(r.Results) {
+		return nil
+	}
+	v := r.Results[i]
+	u, ok := v.(*ssa.UnOp)
+	if !ok || u.Op != token.MUL {
+		return v
+	}
+	al, ok := u.X.(*ssa.Alloc)
+	if !ok || u.Block() != r.Block() {
+		return v
+	}
+	ins := r.Block().Instrs
+	for k := instrIndex(u) - 1; k >= 0; k-- {
+		if st, ok := ins[k].(*ssa.Store); ok && st.Addr == al {
+			return st.Val
+		}
+	}
+	return v
 }
 
 // nonNilMaker reports whether v is, by construction, a non-nil error.
@@ -378,4 +403,255 @@ func debugRefNames(v ssa.Value) []string {
 		}
 	}
 	return out
+}
+
+// ---------------------------------------------------------------------------
+// composite literals, phi selection, loops
+
+// compositeFields returns the values stored into the fields of the struct
+// value v when v is built as a composite literal (a local Alloc filled by
+// field stores and then loaded, or passed by address).
+func compositeFields(v ssa.Value) map[string]ssa.Value {
+	var al *ssa.Alloc
+	switch x := v.(type) {
+	case *ssa.Alloc:
+		al = x
+	case *ssa.UnOp:
+		if x.Op == token.MUL {
+			al, _ = x.X.(*ssa.Alloc)
+		}
+	case *ssa.MakeInterface:
+		return compositeFields(x.X)
+	}
+	if al == nil {
+		return nil
+	}
+	out := map[string]ssa.Value{}
+	for _, r := range *al.Referrers() {
+		fa, ok := r.(*ssa.FieldAddr)
+		if !ok {
+			continue
+		}
+		for _, rr := range *fa.Referrers() {
+			if st, ok := rr.(*ssa.Store); ok && st.Addr == fa {
+				name := fieldAddrName(fa)
+				if i := strings.IndexByte(name, '.'); i >= 0 {
+					name = name[i+1:]
+				}
+				out[name] = st.Val
+			}
+		}
+	}
+	return out
+}
+
+// Incoming is one way a value can be selected: leaf value Val arrives over the
+// CFG edge Pred -> Blk (nil blocks when the value is not a phi).
+type Incoming struct {
+	Val       ssa.Value
+	Pred, Blk *ssa.BasicBlock
+}
+
+// incomings lists the ways a phi value can be selected (one level: a nested
+// phi is reported as a leaf with the edge over which it arrives).
+func incomings(v ssa.Value) []Incoming {
+	phi, ok := v.(*ssa.Phi)
+	if !ok {
+		return []Incoming{{v, nil, nil}}
+	}
+	var out []Incoming
+	for i, e := range phi.Edges {
+		out = append(out, Incoming{e, phi.Block().Preds[i], phi.Block()})
+	}
+	return out
+}
+
+// edgeHasFact reports whether fact fp holds whenever control flows pred -> blk.
+func edgeHasFact(pred, blk *ssa.BasicBlock, fp FP) bool {
+	if pred == nil {
+		return false
+	}
+	if ifi, ok := lastInstr(pred).(*ssa.If); ok {
+		for i, s := range pred.Succs {
+			if s == blk && fp.holds(edgeFact(ifi, i)) {
+				// both successors equal is impossible for a real If
+				return true
+			}
+		}
+	}
+	ok, n := guardedBy(lastInstr(pred), fp)
+	return n > 0 && ok
+}
+
+// Loop describes a counted loop `for v := init; v <= limit; v++`.
+type Loop struct {
+	Phi    *ssa.Phi
+	Init   ssa.Value
+	Inc    *ssa.BinOp
+	Header *ssa.BasicBlock
+	Cond   *ssa.If
+	Body   *ssa.BasicBlock // successor taken while the loop continues
+	Latch  *ssa.BasicBlock // block computing v+1
+}
+
+// countedLoops finds the unit-stride counted loops of fn.
+func countedLoops(fn *ssa.Function) []Loop {
+	var out []Loop
+	for _, b := range fn.Blocks {
+		for _, in := range b.Instrs {
+			phi, ok := in.(*ssa.Phi)
+			if !ok {
+				break
+			}
+			if len(phi.Edges) != 2 {
+				continue
+			}
+			for i := 0; i < 2; i++ {
+				inc, ok := phi.Edges[i].(*ssa.BinOp)
+				if !ok || inc.Op != token.ADD || inc.X != phi || !vConstInt(1)(inc.Y) {
+					continue
+				}
+				l := Loop{Phi: phi, Init: phi.Edges[1-i], Inc: inc, Header: b, Latch: inc.Block()}
+				if ifi, ok := lastInstr(b).(*ssa.If); ok {
+					l.Cond = ifi
+					// body = successor from which the latch is reachable
+					for si, s := range b.Succs {
+						r := reachable(fn, s, []Edge{})
+						if r[l.Latch] && !(si == 1 && reachable(fn, b.Succs[0], nil)[l.Latch]) {
+							l.Body = s
+							break
+						}
+					}
+				}
+				out = append(out, l)
+			}
+		}
+	}
+	return out
+}
+
+// fieldAddrChain matches an address &base.f1.f2... given as "T1.f1","T2.f2".
+func vFieldAddr(names ...string) VM {
+	return func(v ssa.Value) bool {
+		for i := len(names) - 1; i >= 0; i-- {
+			fa, ok := v.(*ssa.FieldAddr)
+			if !ok || fieldAddrName(fa) != names[i] {
+				return false
+			}
+			v = fa.X
+		}
+		return true
+	}
+}
+
+// vFieldPath matches a load through a chain of fields, e.g.
+// vFieldPath("syncExecutor.pos", "Pos.TXID").
+func vFieldPath(names ...string) VM {
+	return anyOrigin(func(v ssa.Value) bool {
+		switch x := v.(type) {
+		case *ssa.UnOp:
+			return x.Op == token.MUL && vFieldAddr(names...)(x.X)
+		case *ssa.Field:
+			if len(names) == 0 || fieldName(x.X.Type(), x.Field) != names[len(names)-1] {
+				return false
+			}
+			if len(names) == 1 {
+				return true
+			}
+			return vFieldPath(names[:len(names)-1]...)(x.X)
+		}
+		return false
+	})
+}
+
+// vCall matches a call value to the named callee whose leading arguments
+// (receiver first for static method calls) match args (nil = any).
+func vCall(name string, args ...VM) VM {
+	return anyOrigin(func(v ssa.Value) bool {
+		c, ok := v.(*ssa.Call)
+		if !ok || calleeName(c) != name {
+			return false
+		}
+		a := c.Call.Args
+		for i, m := range args {
+			if m == nil {
+				continue
+			}
+			if i >= len(a) || !m(a[i]) {
+				return false
+			}
+		}
+		return true
+	})
+}
+
+// strictlyBefore is the fact "x is strictly before t": the true edge of
+// x.Before(t) or of t.After(x).  (The false edge of x.After(t) is only <=.)
+func strictlyBefore(x, t VM, desc string) []FP {
+	return []FP{
+		truthFact(vCall("(time.Time).Before", x, t), true, desc),
+		truthFact(vCall("(time.Time).After", t, x), true, desc+" (as t.After(x))"),
+	}
+}
+
+// notAfter is the fact "x <= t".
+func notAfter(x, t VM, desc string) []FP {
+	return []FP{
+		truthFact(vCall("(time.Time).After", x, t), false, desc),
+		truthFact(vCall("(time.Time).Before", t, x), false, desc),
+		truthFact(vCall("(time.Time).Before", x, t), true, desc),
+		truthFact(vCall("(time.Time).After", t, x), true, desc),
+	}
+}
+
+// isZeroTime is the fact "t.IsZero()".
+func isZeroTime(t VM, desc string) FP {
+	return truthFact(vCall("(time.Time).IsZero", t), true, desc)
+}
+
+// requireGuardAny is requireGuard with a slice of alternatives.
+func (c *Ctx) requireGuardAny(rule string, fn *ssa.Function, s Site, desc string, alts []FP) bool {
+	if len(alts) > 0 {
+		alts[0].Desc = desc
+		for i := 1; i < len(alts); i++ {
+			alts[i].Desc = ""
+		}
+	}
+	var descs []string
+	for _, a := range alts {
+		if a.Desc != "" {
+			descs = append(descs, a.Desc)
+		}
+	}
+	construct := fmt.Sprintf("%s: %s requires [%s]", fnName(fn), s.Desc, strings.Join(descs, " OR "))
+	ok, n := guardedBy(s.In, alts...)
+	if n == 0 {
+		c.fail(rule, construct, c.pos(s.In), "no branch establishing the required fact exists in "+fnName(fn))
+		return false
+	}
+	if !ok {
+		c.fail(rule, construct, c.pos(s.In),
+			fmt.Sprintf("site is reachable from entry without passing a branch edge on which the fact holds (%d candidate edge(s) removed)", n),
+			witnessPath(c.P, fn, s.In.Block(), cutEdges(fn, alts...))...)
+		return false
+	}
+	c.ok(rule, construct, c.pos(s.In), fmt.Sprintf("unreachable after removing %d fact edge(s)", n))
+	return true
+}
+
+// reachableAvoiding is reachable() that additionally never enters the blocks
+// in avoid.
+func reachableAvoiding(fn *ssa.Function, from *ssa.BasicBlock, cut []Edge, avoid map[*ssa.BasicBlock]bool) map[*ssa.BasicBlock]bool {
+	var extra []Edge
+	for _, b := range fn.Blocks {
+		for i, s := range b.Succs {
+			if avoid[s] {
+				extra = append(extra, Edge{b, i})
+			}
+		}
+	}
+	if from == nil && len(fn.Blocks) > 0 && avoid[fn.Blocks[0]] {
+		return map[*ssa.BasicBlock]bool{}
+	}
+	return reachable(fn, from, append(extra, cut...))
 }
